@@ -1,4 +1,6 @@
-import PilotaModel.Lemmas.OpsRun
+import PilotaModel.Lemmas.Varint
+import PilotaModel.Thrift.Binary
+import PilotaModel.Thrift.Compact
 /-  The reader's recursion budget `3 * input.length + 3` always covers a well-typed value. -/
 namespace Pilota.Thrift
 open Pilota Pilota.Thrift
@@ -39,6 +41,27 @@ theorem sizeP_le (e : Endian) (kvs : TPairs) (kt vt : TType) (hw : kvs.wt kt vt 
     have h3 := sizeP_le e r kt vt hw.2
     simp [TPairs.size, encPairs]; omega
 end
+
+theorem enc_pos (e : Endian) (v : TVal) (hw : v.wt = true) : 1 ≤ (enc e v).length := by
+  have := size_le e v hw; omega
+
+theorem vals_length_le (e : Endian) (xs : TVals) (et : TType) (hw : xs.wt et = true) : xs.length ≤ (encVals e xs).length := by
+  match xs with
+  | .nil => simp [TVals.length]
+  | .cons v vs =>
+    simp [TVals.wt] at hw
+    have := enc_pos e v hw.1.2
+    have := vals_length_le e vs et hw.2
+    simp [TVals.length, encVals]; omega
+
+theorem pairs_length_le (e : Endian) (kvs : TPairs) (kt vt : TType) (hw : kvs.wt kt vt = true) : kvs.length ≤ (encPairs e kvs).length := by
+  match kvs with
+  | .nil => simp [TPairs.length]
+  | .cons k v r =>
+    simp [TPairs.wt] at hw
+    have := enc_pos e k hw.1.1.2
+    have := pairs_length_le e r kt vt hw.2
+    simp [TPairs.length, encPairs]; omega
 end Binary
 
 namespace Compact
@@ -101,5 +124,26 @@ theorem sizeP_le (kvs : TPairs) (kt vt : TType) (hw : kvs.wt kt vt = true) : kvs
     have h3 := sizeP_le r kt vt hw.2
     simp [TPairs.size, encPairs]; omega
 end
+
+theorem enc_pos (v : TVal) (hw : v.wt = true) : 1 ≤ (enc v).length := by
+  have := size_le v hw; omega
+
+theorem vals_length_le (xs : TVals) (et : TType) (hw : xs.wt et = true) : xs.length ≤ (encVals xs).length := by
+  match xs with
+  | .nil => simp [TVals.length]
+  | .cons v vs =>
+    simp [TVals.wt] at hw
+    have := enc_pos v hw.1.2
+    have := vals_length_le vs et hw.2
+    simp [TVals.length, encVals]; omega
+
+theorem pairs_length_le (kvs : TPairs) (kt vt : TType) (hw : kvs.wt kt vt = true) : kvs.length ≤ (encPairs kvs).length := by
+  match kvs with
+  | .nil => simp [TPairs.length]
+  | .cons k v r =>
+    simp [TPairs.wt] at hw
+    have := enc_pos k hw.1.1.2
+    have := pairs_length_le r kt vt hw.2
+    simp [TPairs.length, encPairs]; omega
 end Compact
 end Pilota.Thrift
